@@ -1,6 +1,7 @@
 SPECIFICATION GenSpec
 CONSTANT Which = "C17"
 CONSTANT TinyLen = 7
+CONSTANT OwnTailLen = 6
 CONSTANT TailLen = 5
 CONSTANT SmallLen = 5
 CONSTANT AsBuilt = {}
